@@ -1,5 +1,6 @@
 (* C17 - each strictness option changes exactly the check it names, nothing else. *)
 From HclV Require Import Base Expr ExprSpec ExprLemmas ExprProofs ExprRules ExprRulesProofs.
+From HclV Require Import Machine MachineSpec SchedSpec Build BuildSpec Generated FeatureSpec FeatureProofs.
 Open Scope N_scope.
 
 (* turning options off never rejects more, and never changes the width assigned *)
@@ -25,3 +26,50 @@ Theorem C17_accept_iff :
   forall f G C e w, check f G C e = Ok w <-> has_width f G C e w.
 Proof. exact check_iff. Qed.
 Print Assumptions C17_accept_iff.
+
+(* ---- program level (FeatureSpec.v / FeatureProofs.v): statement lists, Program::new with the
+   compiled component table, the simulator ------------------------------------------------------- *)
+Section C17_program.
+  Variable is_lower : string -> bool.
+  Variable is_upper : string -> bool.
+  Notation build f := (build_program f gen_fixed is_lower is_upper).
+
+  (* turning options off never rejects more and never changes the compiled program *)
+  Theorem C17_program_monotone :
+    forall a b stmts p,
+      feat_le a b -> Forall wf_stmt stmts -> build b stmts = Ok p -> build a stmts = Ok p.
+  Proof. exact (program_monotone_holds is_lower is_upper). Qed.
+
+  (* two combinations that both accept compile the SAME program *)
+  Theorem C17_same_program_under_two_sets :
+    forall a b stmts p p',
+      Forall wf_stmt stmts -> build a stmts = Ok p -> build b stmts = Ok p' -> p = p'.
+  Proof. exact (program_same_under_two_sets_holds is_lower is_upper). Qed.
+
+  (* the property's first sentence: accepted under f exactly when accepted with every option off
+     (the always-on rules) and with each enabled option alone (the rule of that option) *)
+  Theorem C17_accepted_iff_always_on_rules_and_each_enabled_option :
+    stmt_accepted_iff_each_enabled_option is_lower is_upper.
+  Proof. exact (accepted_iff_each_enabled_option_holds is_lower is_upper). Qed.
+
+  (* the property's second sentence: a program accepted under two combinations simulates
+     identically under both - same states, same output text, same errors, step and run *)
+  Theorem C17_simulates_identically_under_two_sets :
+    stmt_simulation_same_under_two_sets is_lower is_upper.
+  Proof. exact (simulation_same_under_two_sets_holds is_lower is_upper). Qed.
+End C17_program.
+Print Assumptions C17_program_monotone.
+Print Assumptions C17_same_program_under_two_sets.
+Print Assumptions C17_accepted_iff_always_on_rules_and_each_enabled_option.
+Print Assumptions C17_simulates_identically_under_two_sets.
+
+(* each option guards its own rule: five programs accepted, for EVERY one of the 32 combinations,
+   iff their option is off (the one for disallow-multiple-mux-default: iff that and
+   disallow-unreachable-options are off, since the latter's rule implies the former's) *)
+Theorem C17_each_option_guards_its_rule :
+  stmt_each_option_guards_its_rule sep_sbo sep_swb sep_rmd sep_dmd sep_duo.
+Proof. exact each_option_guards_its_rule_holds. Qed.
+Print Assumptions C17_each_option_guards_its_rule.
+Theorem C17_unreachable_rule_subsumes_single_default_rule : stmt_duo_subsumes_dmd.
+Proof. exact duo_subsumes_dmd_holds. Qed.
+Print Assumptions C17_unreachable_rule_subsumes_single_default_rule.
